@@ -32,6 +32,17 @@ pub struct Cg<const N: usize>;
 pub struct PErr(pub String);
 pub fn perr(s: &str) -> PErr { CALLS.fetch_add(1, Ordering::SeqCst); PErr(s.to_string()) }
 
+#[derive(Debug, PartialEq, Clone, Default, strum::Display, strum::AsRefStr, strum::IntoStaticStr, strum::EnumString)]
+pub enum Inner {
+    #[default]
+    #[strum(serialize = "inner-a")]
+    Aa,
+    #[strum(to_string = "Inner B")]
+    Bb,
+    #[strum(serialize = "çé")]
+    Cc,
+}
+
 /// format `v` with a run-time chosen spec.  fill: 0=' ' 1='*' 2='é'; align: 0 none 1 < 2 ^ 3 >;
 /// width: usize; prec: -1 = none; zero: `0` flag
 pub fn fmt_with<T: core::fmt::Display>(v: &T, fill: u8, align: u8, width: usize, prec: i64, zero: bool) -> String {
@@ -123,7 +134,10 @@ PALETTE_RS['Cg'] = ('Cg<N>', None, None)
 PALETTE_RS['BoxStr'] = ('Box<str>', 'Box::<str>::from("dw")', 'Box::<str>::from("zz")')
 PALETTE_RS['u32'] = ('u32', '70000u32', '5u32')
 PALETTE_RS['T'] = ('T', None, None)
+PALETTE_RS['Inner'] = ('Inner', 'Inner::Bb', 'Inner::Cc')
 
+EXTREME = {'u8': 'u8::MAX', 'i32': 'i32::MIN', 'i64': 'i64::MIN', 'u16': 'u16::MAX', 'u32': 'u32::MAX', 'bool': 'true',
+           'String': 'String::from("a fairly long string with {braces} and \\u{e9}\\u{1f600} in it")', 'OptU8': 'Some(u8::MAX)'}
 STRINGY = {'String', 'BoxStr', 'RefStr', 'StaticStr'}
 
 DERIVE_PATH = {
@@ -147,9 +161,15 @@ def field_ty(key, inst=False, generics=''):
 
 
 def field_val(key, alt):
-    """expression of a field value: alt 0 = default, 1/2 = distinct non-default values"""
+    """expression of a field value: alt 0 = default, 1/2 = distinct non-default values, 4 = extreme value"""
     if alt == 0:
         return 'Default::default()'
+    if alt == 4:
+        if key == 'T':
+            return '65535u16'
+        if key == 'Cg':
+            return 'Default::default()'
+        return EXTREME.get(key, PALETTE_RS[key][1])
     if key == 'T':
         return '513u16' if alt == 1 else '77u16'
     if key == 'Cg':
@@ -178,7 +198,7 @@ class EnumGen:
         if v.tr:
             items.append('transparent')
         if v.ci is not None:
-            items.append('ascii_case_insensitive' if v.ci is True and v.ident.__hash__() % 2 == 0
+            items.append('ascii_case_insensitive' if v.ci is True and sum(map(ord, v.ident)) % 2 == 0
                          else 'ascii_case_insensitive = %s' % ('true' if v.ci else 'false'))
         if v.dw is not None:
             items.append('default_with = %s' % rust_str(v.dw))
@@ -333,13 +353,13 @@ class EnumGen:
                "    let inner_s: &'static str = Box::leak(inner.to_string().into_boxed_str());",
                '    Some(match (id, alt) {']
         for v in self.e.variants:
-            for alt in (0, 1, 2, 3):
+            for alt in (0, 1, 2, 3, 4):
                 vals = []
                 for t in v.ftypes:
                     if alt == 3:
                         if t in STRINGY:
                             vals.append('inner_s.into()')
-                        elif t in ('u8', 'u16', 'u32', 'i32', 'i64'):
+                        elif t in ('u8', 'u16', 'u32', 'i32', 'i64', 'Inner'):
                             vals.append('inner_s.parse().unwrap()')
                         else:
                             vals.append(field_val(t, 0))
@@ -393,7 +413,7 @@ class EnumGen:
         e = self.e
         has_default = any(v.default and not v.dis for v in e.variants)
         custom = e.err and not has_default
-        errty = 'PErr' if custom else '%s::ParseError' % self.sp.replace('::', '', 1) if self.sp.startswith('::') else ('PErr' if custom else '%s::ParseError' % self.sp)
+        errty = 'PErr' if custom else '%s::ParseError' % self.sp
         out = []
         out.append('fn fmt_res(r: Result<Inst, %s>) -> String {' % errty)
         out.append('    match r {')
@@ -420,19 +440,42 @@ class EnumGen:
         out.append('}')
         return out, [('parse', 'op_parse')]
 
-    NAME_DERIVES = ['Display', 'AsRefStr', 'IntoStaticStr', 'ToString', 'AsStaticStr']
+    def name_keys(self):
+        return name_keys(self.e)
+
+    def fn_display_repr(self):
+        """display_repr(v, s): hex of s, or `INTERP` when v is an interpolated variant and s equals what format!
+        renders for the same literal and fields (the in-language oracle)"""
+        out = ['fn display_repr(v: &Inst, s: String) -> String {', '    match v {']
+        for v in self.e.variants:
+            ia = getattr(v, 'interp', None) or self.e.extra.get('interp', {}).get(v.ident)
+            if ia is None or v.dis:
+                continue
+            pat, names = self.pat_bind(v)
+            lit = rust_str(self.e.extra['interp_lit'][v.ident])
+            if v.kind == 'tuple':
+                args = ', '.join(names)
+            else:
+                args = ', '.join('%s = %s' % (fn, names[v.fnames.index(fn)]) for fn in ia)
+            out.append('        %s => { let exp = format!(%s, %s); if s == exp { "INTERP".to_string() } else { format!("{}!=oracle:{}", hex(s.as_bytes()), hex(exp.as_bytes())) } }'
+                       % (pat, lit, args))
+        out.append('        _ => hex(s.as_bytes()),')
+        out.append('    }')
+        out.append('}')
+        return out
 
     def feat_names(self):
-        """op `names <xident> <alt> <xinner>`: every string-producing derive the enum carries"""
+        """op `names <xident> <alt> <xinner> <keys>`: every string-producing derive the enum carries"""
         e = self.e
-        out = ['fn op_names(a: &[&str]) -> String {',
-               '    let inner = unhex(a[3]);',
-               '    let alt: u8 = a[2].parse().unwrap();',
-               '    let v = match mk(a[1], alt, &inner) { Some(v) => v, None => return "bad-op".to_string() };',
-               '    let mut o: Vec<String> = Vec::new();']
+        out = self.fn_display_repr()
+        out += ['fn op_names(a: &[&str]) -> String {',
+                '    let inner = unhex(a[3]);',
+                '    let alt: u8 = a[2].parse().unwrap();',
+                '    let v = match mk(a[1], alt, &inner) { Some(v) => v, None => return "bad-op".to_string() };',
+                '    let mut o: Vec<String> = Vec::new();']
         if 'Display' in e.derives:
-            out.append('    o.push(format!("display={}", hex(format!("{}", v).as_bytes())));')
-            out.append('    o.push(format!("to_string={}", hex(ToString::to_string(&v).as_bytes())));')
+            out.append('    o.push(format!("display={}", display_repr(&v, format!("{}", v))));')
+            out.append('    o.push(format!("to_string={}", display_repr(&v, ToString::to_string(&v))));')
         if 'ToString' in e.derives:
             out.append('    o.push(format!("tostring={}", hex(ToString::to_string(&v).as_bytes())));')
         if 'AsRefStr' in e.derives:
@@ -452,9 +495,34 @@ class EnumGen:
                     '    let inner = unhex(a[3]);',
                     '    let alt: u8 = a[2].parse().unwrap();',
                     '    let v = match mk(a[1], alt, &inner) { Some(v) => v, None => return "bad-op".to_string() };',
-                    '    hex(fmt_spec(&v, a[4]).as_bytes())',
+                    '    display_repr(&v, fmt_spec(&v, a[4]))',
                     '}']
             ops.append(('show', 'op_show'))
+        if 'Display' in e.derives and e.extra.get('fwd'):
+            # in-language oracle: a forwarding variant must format exactly like its inner value
+            out += ['fn op_fwd(a: &[&str]) -> String {',
+                    '    let inner = unhex(a[3]);',
+                    '    let v = match mk(a[1], 3, &inner) { Some(v) => v, None => return "bad-op".to_string() };',
+                    '    let got = fmt_spec(&v, a[4]);',
+                    '    let exp: String = match &v {']
+            for v in e.variants:
+                if (v.tr or (v.default and v.ts is None)) and not v.dis and len(v.ftypes) == 1:
+                    pat, names = self.pat_bind(v)
+                    out.append('        %s => fmt_spec(%s, a[4]),' % (pat, names[0]))
+            out += ['        _ => return "not-forwarding".to_string(),',
+                    '    };',
+                    '    if got == exp { "fwd-ok".to_string() } else { format!("fwd-mismatch got={} exp={}", hex(got.as_bytes()), hex(exp.as_bytes())) }',
+                    '}']
+            ops.append(('fwd', 'op_fwd'))
+        if 'Display' in e.derives and 'EnumString' in e.derives:
+            out += ['fn op_reparse(a: &[&str]) -> String {',
+                    '    let s = unhex(a[1]);',
+                    '    match <Inst as core::str::FromStr>::from_str(&s) {',
+                    '        Ok(v) => format!("ok {} {}", ident_of(&v), display_repr(&v, ToString::to_string(&v))),',
+                    '        Err(_) => "err".to_string(),',
+                    '    }',
+                    '}']
+            ops.append(('reparse', 'op_reparse'))
         if 'VariantNames' in e.derives:
             out += ['fn op_variants(a: &[&str]) -> String {',
                     '    let v: &[&str] = <Inst as %s::VariantNames>::VARIANTS;' % self.sp,
@@ -466,7 +534,7 @@ class EnumGen:
         return out, ops
 
     def feat_roundtrip(self):
-        """op `roundtrip <xident>`: print with each derive, parse back"""
+        """op `roundtrip <xident> <keys>`: print with each derive, parse back"""
         e = self.e
         out = ['fn op_roundtrip(a: &[&str]) -> String {',
                '    let v = match mk(a[1], 1, "") { Some(v) => v, None => return "bad-op".to_string() };',
@@ -476,13 +544,14 @@ class EnumGen:
                     'o.push(format!("%s={}", match r { Ok(v) => format!("ok:{}{}", ident_of(&v), payload(&v).replace(" ", ":")), Err(_) => "err".to_string() })); }' % (expr, label))
         if 'Display' in e.derives:
             out.append(back('display', 'format!("{}", v)'))
+            out.append(back('to_string', 'ToString::to_string(&v)'))
         if 'AsRefStr' in e.derives:
             out.append(back('asref', 'AsRef::<str>::as_ref(&v).to_string()'))
         if 'IntoStaticStr' in e.derives:
             out.append(back('intoref', "{ let r: &'static str = (&v).into(); r.to_string() }"))
-            out.append(back('into', "{ let r: &'static str = v.clone().into(); r.to_string() }"))
             if e.cis:
                 out.append(back('intostr', 'v.into_str().to_string()'))
+            out.append(back('into', "{ let r: &'static str = v.clone().into(); r.to_string() }"))
         if 'EnumMessage' in e.derives:
             out.append('    for (i, s) in %s::EnumMessage::get_serializations(&v).iter().enumerate() {' % self.sp)
             out.append('        let r = <Inst as core::str::FromStr>::from_str(s);')
@@ -520,6 +589,25 @@ class EnumGen:
         out.append('    }')
         out.append('}')
         return '\n'.join(out) + '\n'
+
+
+def name_keys(e, roundtrip=False, v=None):
+    """the keys (in order) that the `names` / `roundtrip` ops print for this enum"""
+    ks = []
+    if 'Display' in e.derives:
+        ks += ['display', 'to_string']
+    if 'ToString' in e.derives and not roundtrip:
+        ks += ['tostring']
+    if 'AsRefStr' in e.derives:
+        ks += ['asref']
+    if 'AsStaticStr' in e.derives and not roundtrip:
+        ks += ['asstatic']
+    if 'IntoStaticStr' in e.derives:
+        ks += ['intoref'] + (['intostr'] if e.cis else []) + ['into']
+    if roundtrip and 'EnumMessage' in e.derives and v is not None:
+        n = len(v.ser) + (1 if v.ts is not None else 0)
+        ks += ['ser%d' % i for i in range(max(n, 1))]
+    return ks
 
 
 def render_shard(especs, strum_path='strum', gen_cls=EnumGen):
